@@ -3705,6 +3705,17 @@ class BaseInstance(BaseClass):
         fast_validate = getattr(handler, "fast_validate", None)
         if fast_validate is not None:
             trait.set_validate(fast_validate)
+            # If the object has its own copy of the trait (for example
+            # because a listener was attached to it), the class-level trait
+            # used by all other instances shares the handler and needs the
+            # recomputed validator as well.
+            class_trait = object.__class_traits__.get(name)
+            if (
+                class_trait is not None
+                and class_trait is not trait
+                and class_trait.handler is handler
+            ):
+                class_trait.set_validate(fast_validate)
 
 
 class Instance(BaseInstance):
